@@ -147,12 +147,24 @@ class BetaBinomStub:
         self.n = n
         self.random_state = None
 
-    def rvs(self, size=1):
-        return self.random_state.integers(0, self.n + 1, size=size)
+    def rvs(self, size=1, random_state=None):
+        rs = random_state if random_state is not None else self.random_state
+        return rs.integers(0, self.n + 1, size=size)
 
 
-def betabinom_stub(n, a, b):
-    return BetaBinomStub(n, a, b)
+class _BetaBinomModule:
+    """scipy.stats.betabinom in both calling styles: frozen `betabinom(n, a, b).rvs(size=)` with an attached random_state, and
+    `betabinom.rvs(n, a, b, size=, random_state=)`."""
+
+    def __call__(self, n, a, b):
+        return BetaBinomStub(n, a, b)
+
+    @staticmethod
+    def rvs(n, a, b, size=1, random_state=None, loc=0):
+        return BetaBinomStub(n, a, b).rvs(size=size, random_state=random_state) + loc
+
+
+betabinom_stub = _BetaBinomModule()
 
 
 class IndexGenerator(SymGenerator):
